@@ -14,9 +14,6 @@ open L
 /-- `y`'s `Cfg` part agrees with `c` on what `Inv2` looks at and on the state object; its transition flag is `tr` -/
 def CR (c : Cfg) (y : FCfg) (tr : Option Label) : Prop := Same2 c y.l.c ∧ y.l.c.st = c.st ∧ y.l.trans = tr
 
-/-- an error of the state machine itself -/
-def Internal (e : Exc) : Prop := e = .assertion ∨ e = .invalidState ∨ ∃ a b, e = .noTransition a b
-
 structure NK (a0 : Arm) (N : Hook → FCfg → FCfg) : Prop where
   inv : ∀ h x, K a0 x → K a0 (N h x)
   tq : ∀ h x, x.l.trans.isSome = true → ArmOk a0 x →
@@ -163,7 +160,7 @@ theorem enteredHooksF_spec (hN : NK a0 N) (x : FCfg) (s : SObj) (h : ArmOk a0 x)
       ArmOk a0 (enteredHooksF N x s).1 ∧ (mainHK a0.hk = true → (enteredHooksF N x s).1.fired = x.fired)) ∨
     ((enteredHooksF N x s).2 = some faultExc ∧
       ((enteredHooksF N x s).1.l = x.l ∨ CR (enteredHooks x.l.c s) (enteredHooksF N x s).1 x.l.trans) ∧
-      (enteredHooksF N x s).1.fired = true ∧ (enteredHooksF N x s).1.arm = none ∧ x.fired = false) ∨
+      (enteredHooksF N x s).1.fired = true ∧ (enteredHooksF N x s).1.arm = none ∧ mainHK a0.hk = true) ∨
     ((enteredHooksF N x s).2 = some .assertion ∧ CR (enteredHooks x.l.c s) (enteredHooksF N x s).1 x.l.trans ∧
       ArmOk a0 (enteredHooksF N x s).1 ∧ (mainHK a0.hk = true → (enteredHooksF N x s).1.fired = x.fired)) := by
   unfold enteredHooksF hookOpt
@@ -173,8 +170,10 @@ theorem enteredHooksF_spec (hN : NK a0 N) (x : FCfg) (s : SObj) (h : ArmOk a0 x)
     exact Or.inl ⟨h0, h1, h2, h3⟩
   | some k =>
     simp only []
-    rcases hookF_cases k (enteredBaseF N s) x h with ⟨_, _, hnf, _, y, hy, h1, h2, h3, _⟩ | ⟨x', hl, hf, hr, hao, han, hcase⟩
-    · right; left; rw [hy]; exact ⟨rfl, Or.inl h1, h2, h3, hnf⟩
+    have hmk : a0.hk = k → mainHK a0.hk = true := fun hhk => by
+      rw [hhk]; cases s <;> simp [enteredHK] at hk <;> subst hk <;> rfl
+    rcases hookF_cases k (enteredBaseF N s) x h with ⟨hhk, _, hnf, _, y, hy, h1, h2, h3, _⟩ | ⟨x', hl, hf, hr, hao, han, hcase⟩
+    · right; left; rw [hy]; exact ⟨rfl, Or.inl h1, h2, h3, hmk hhk⟩
     · obtain ⟨k0, k1, k2, k3⟩ := enteredBaseF_spec hN s x' hao (by rw [hl]; exact htr)
       rw [hl] at k1
       rcases hcase with ⟨hhk, _, hnf, _, hx'a, hcase⟩ | hcase
@@ -184,7 +183,7 @@ theorem enteredHooksF_spec (hN : NK a0 N) (x : FCfg) (s : SObj) (h : ArmOk a0 x)
           have hy1 : (enteredBaseF N s x').1 = y := by rw [hb]
           rw [hy1] at k1
           rw [hy]
-          refine ⟨rfl, Or.inr ⟨?_, ?_, ?_⟩, hfy, hu3, hnf⟩
+          refine ⟨rfl, Or.inr ⟨?_, ?_, ?_⟩, hfy, hu3, hmk hhk⟩
           · show Same2 _ y'.l.c; rw [hu1]; exact k1.1
           · show y'.l.c.st = _; rw [hu1]; exact k1.2.1
           · show y'.l.trans = _; rw [hu1]; exact k1.2.2
